@@ -66,7 +66,7 @@ CLAIMED = {
                 'TT ply shift (store at p1, read at p2), the win/loss classification and the 16-bit range. This is a genuine necessary '
                 'condition of "mate N means mate in N": any disagreement between an encoder and a decoder shifts every announced '
                 'distance. Second clause (K3 typestate): a score found by searching after a null move never leaves negaScout (return, hash store, search-tree info) unless it was shown not to be a win score or replaced by a non-win bound. Right level for the first clause: a finite arithmetic agreement; that a reported mate exists at all is game-tree '
-                'semantics and is not claimed. Added clauses (4) bound-type discipline of adopted entry scores and isCutOff, (5) ply-shift codec and decode / re-store ply agreement (shared with C08). (6) every hash store of negaScout happens only in an unrestricted search. (7) every forward-pruning skip in negaScout\'s move loop requires a non-losing running maximum (!isLoseScore(best)), so a node never reports \'mated\' with unsearched quiet defences.',
+                'semantics and is not claimed. Added clauses (4) bound-type discipline of adopted entry scores and isCutOff, (5) ply-shift codec and decode / re-store ply agreement (shared with C08). (6) every hash store of negaScout happens only in an unrestricted search. (7) every forward-pruning skip in negaScout\'s move loop requires a non-losing running maximum (!isLoseScore(best)), so a node never reports \'mated\' with unsearched quiet defences. (8) a move deferred by the ABDADA first pass (marked BUSY - reduction) is not skipped by the second pass, for every reduction 0..15.',
         'design_ref': 'DESIGN.md section 2, C04',
         'note': TB + ' Decides only the encoding agreement, not the existence of the announced mates nor the soundness of pruning near mate scores.',
         'technique': 'custom static analysis: exhaustive constant evaluation of extracted expression trees over a finite domain (encoder/decoder composition)',
